@@ -3,6 +3,9 @@
 // overlapping covers) x placement of replicas (and of their chunks) on stores x store capabilities x framing x
 // dedup on/off, served by fake store clients through the real store.ProxyStore and the real
 // query.NewQueryableCreator(...).Querier(...).Select.
+// Second family (Case.Copies): the SAME replica (same labels incl. replica labels, same samples) is served by two
+// (thorough: three) stores with a different chunk cut on each store, so that the chunk list the proxy merges for that one
+// series contains duplicates, partial overlaps and chunks nested in earlier, longer chunks followed by newer chunks.
 package c04
 
 import (
@@ -44,6 +47,15 @@ type Case struct {
 	Step          int64 `json:"step"`
 	Lazy          bool  `json:"lazy"`  // proxy retrieval strategy
 	Batch         int   `json:"batch"` // querier seriesResponseBatchSize
+	// Copies: further copies of a replica. The same series (labels incl. replica labels, samples of replica Replica) cut
+	// by cut Cut is ALSO served by store Store (e.g. sidecar + store gateway, or two gateways over differently compacted blocks).
+	Copies []Copy `json:"copies,omitempty"`
+}
+
+type Copy struct {
+	Replica int `json:"replica"`
+	Cut     int `json:"cut"`
+	Store   int `json:"store"`
 }
 
 const (
@@ -75,12 +87,52 @@ func buildCuts() [][]ival {
 		[]ival{{0, 2}, {2, 5}},
 		[]ival{{0, 2}, {1, 4}, {3, 5}},
 	)
+	// indices 0..19 above are the base alphabet (stable: replay artefacts refer to them). Extension, used for R=1 and for
+	// the copies of a replica on further stores: the 16 compositions into 4..6 chunks (much finer cuts) ...
+	for comp := range vlib.Compositions(nSamples, nSamples) {
+		if len(comp) <= 3 {
+			continue
+		}
+		var c []ival
+		lo := 0
+		for _, n := range comp {
+			c = append(c, ival{lo, lo + n - 1})
+			lo += n
+		}
+		out = append(out, c)
+	}
+	// ... and covers with chunks nested in an earlier chunk that are followed by a chunk with newer samples.
+	out = append(out,
+		[]ival{{0, 3}, {1, 2}, {4, 5}},
+		[]ival{{0, 4}, {1, 1}, {3, 3}, {5, 5}},
+	)
 	return out
+}
+
+const baseCuts = 20 // cutAlphabet[:baseCuts] is the alphabet of the replica family (R=2), the whole alphabet that of R=1 and of copies
+
+// selfOverlap: the chunks of the cut overlap each other (they are not a partition of the samples).
+func selfOverlap(ci int) bool {
+	hi := -1
+	for _, iv := range cutAlphabet[ci] {
+		if iv.lo <= hi {
+			return true
+		}
+		hi = iv.hi
+	}
+	return false
 }
 
 // smallCuts / mediumCuts: indices into cutAlphabet used where the full alphabet is too large (R=3: quick / thorough).
 var smallCuts = pickCuts([][]ival{
 	{{0, 5}}, {{0, 2}, {3, 5}}, {{0, 1}, {2, 3}, {4, 5}}, {{0, 3}, {2, 5}}, {{0, 5}, {2, 3}},
+})
+
+// tripleCuts: cuts of a replica served by three stores (thorough).
+var tripleCuts = pickCuts([][]ival{
+	{{0, 5}}, {{0, 2}, {3, 5}}, {{0, 0}, {1, 5}}, {{0, 4}, {5, 5}}, {{0, 1}, {2, 3}, {4, 5}}, {{0, 0}, {1, 1}, {2, 5}}, {{0, 2}, {3, 3}, {4, 5}}, {{0, 3}, {4, 4}, {5, 5}},
+	{{0, 0}, {1, 1}, {2, 2}, {3, 3}, {4, 4}, {5, 5}}, {{0, 0}, {1, 2}, {3, 3}, {4, 5}},
+	{{0, 3}, {2, 5}}, {{0, 5}, {2, 3}}, {{0, 2}, {1, 4}, {3, 5}}, {{0, 3}, {1, 2}, {4, 5}},
 })
 
 var mediumCuts = pickCuts([][]ival{
@@ -161,7 +213,61 @@ func (c Case) stores() int {
 			s = p + 1
 		}
 	}
+	for _, cp := range c.Copies {
+		if cp.Store+1 > s {
+			s = cp.Store + 1
+		}
+	}
 	return s
+}
+
+// allCuts: the cut of every served copy of replica k (its own and those in Copies).
+func (c Case) allCuts(k int) []int {
+	out := []int{c.Cuts[k]}
+	for _, cp := range c.Copies {
+		if cp.Replica == k {
+			out = append(out, cp.Cut)
+		}
+	}
+	return out
+}
+
+// mergedChunks: the distinct chunks of replica k over all its copies in the order the proxy chains them (min time, max time).
+func (c Case) mergedChunks(k int) []ival {
+	seen := map[ival]bool{}
+	var out []ival
+	for _, ci := range c.allCuts(k) {
+		for _, iv := range cutAlphabet[ci] {
+			if !seen[iv] {
+				seen[iv] = true
+				out = append(out, iv)
+			}
+		}
+	}
+	sort.Slice(out, func(a, b int) bool {
+		if out[a].lo != out[b].lo {
+			return out[a].lo < out[b].lo
+		}
+		return out[a].hi < out[b].hi
+	})
+	return out
+}
+
+// nestedThenNewer: the merged chunk list of replica k has a chunk that lies completely inside what earlier chunks cover
+// and a later chunk that brings newer samples.
+func (c Case) nestedThenNewer(k int) bool {
+	hi, nested := -1, false
+	for _, iv := range c.mergedChunks(k) {
+		if iv.hi <= hi {
+			nested = true
+			continue
+		}
+		if nested && hi >= 0 {
+			return true
+		}
+		hi = iv.hi
+	}
+	return false
 }
 
 type fakeSeries struct {
@@ -237,6 +343,19 @@ func (c Case) buildClients() []store.Client {
 					fs = &fakeSeries{lset: lset}
 					per[st][key] = fs
 				}
+				fs.chks = append(fs.chks, encode(ss[iv.lo:iv.hi+1]))
+			}
+		}
+		for _, cp := range c.Copies {
+			lset := c.fullLabels(l, cp.Replica)
+			ss := c.samples(l, cp.Replica)
+			key := lset.String()
+			fs := per[cp.Store][key]
+			if fs == nil {
+				fs = &fakeSeries{lset: lset}
+				per[cp.Store][key] = fs
+			}
+			for _, iv := range cutAlphabet[cp.Cut] {
 				fs.chks = append(fs.chks, encode(ss[iv.lo:iv.hi+1]))
 			}
 		}
@@ -342,10 +461,11 @@ func placements(n int) [][]int {
 }
 
 func gen(r *vlib.R) iter.Seq[Case] {
-	all := make([]int, len(cutAlphabet))
-	for i := range all {
-		all[i] = i
+	ext := make([]int, len(cutAlphabet)) // whole alphabet
+	for i := range ext {
+		ext[i] = i
 	}
+	all := ext[:baseCuts]
 	type lv struct {
 		l     int
 		after bool
@@ -354,6 +474,9 @@ func gen(r *vlib.R) iter.Seq[Case] {
 	return func(yield func(Case) bool) {
 		for R := 1; R <= 3; R++ {
 			cuts := all
+			if R == 1 {
+				cuts = ext
+			}
 			if R == 3 {
 				cuts = vlib.Pick(r, smallCuts, mediumCuts)
 			}
@@ -402,7 +525,90 @@ func gen(r *vlib.R) iter.Seq[Case] {
 				}
 			}
 		}
+		genCopies(r, ext, yield)
 	}
+}
+
+// genCopies: replica 0 is served by store 0 and ALSO, with another cut, by store 1 (thorough: and by store 2): every ordered
+// pair of cuts of the whole alphabet (equal cuts included: the proxy then drops the identical chunks); alone (R=1) or next to a
+// second replica (R=2) that lives on one of those stores or on its own.
+func genCopies(r *vlib.R, ext []int, yield func(Case) bool) bool {
+	type lv struct {
+		l     int
+		after bool
+	}
+	lvs := []lv{{1, false}, {2, true}, {2, false}}
+	type shape struct {
+		cuts   []int  // cuts of the replicas
+		place  []int  // their home stores
+		copies []Copy // copies of replica 0
+		wide   bool   // R=1 with two stores: also step 1 s [t: lazy, batch 3]
+	}
+	emit := func(sh shape) bool {
+		steps := []int64{10000}
+		lazies, batches := []bool{false}, []int{1}
+		if sh.wide {
+			steps = []int64{10000, 1000}
+			if r.Thorough() {
+				lazies, batches = []bool{false, true}, []int{1, 3}
+			}
+		}
+		for _, v := range lvs {
+			for labelCfg := 0; labelCfg < 2; labelCfg++ {
+				for mode := 0; mode < 3; mode++ {
+					for fl := 0; fl < 4; fl++ {
+						for si, step := range steps {
+							if si > 0 && mode != 0 {
+								break
+							}
+							for _, lazy := range lazies {
+								for _, batch := range batches {
+									c := Case{L: v.l, PairAfter: v.after, LabelCfg: labelCfg, Cuts: sh.cuts, Place: sh.place, Copies: sh.copies,
+										Supports: fl&1 != 0, ChunkPerFrame: fl&2 != 0, Dedup: mode < 2, Identical: mode == 0, Step: step, Lazy: lazy, Batch: batch}
+									if !yield(c) {
+										return false
+									}
+								}
+							}
+						}
+					}
+				}
+			}
+		}
+		return true
+	}
+	// second replica: cut x home store (0 = with the first copy, 1 = with the second copy, 2 = its own store)
+	type second struct{ cut, store int }
+	var seconds []second
+	for _, ci := range vlib.Pick(r, pickCuts([][]ival{{{0, 2}, {3, 5}}}), smallCuts) {
+		for _, st := range vlib.Pick(r, []int{0, 2}, []int{0, 1, 2}) {
+			seconds = append(seconds, second{ci, st})
+		}
+	}
+	for _, c0 := range ext {
+		for _, c1 := range ext {
+			if !emit(shape{cuts: []int{c0}, place: []int{0}, copies: []Copy{{0, c1, 1}}, wide: true}) {
+				return false
+			}
+			for _, s2 := range seconds {
+				if !emit(shape{cuts: []int{c0, s2.cut}, place: []int{0, s2.store}, copies: []Copy{{0, c1, 1}}}) {
+					return false
+				}
+			}
+		}
+	}
+	if r.Thorough() {
+		for _, c0 := range tripleCuts {
+			for _, c1 := range tripleCuts {
+				for _, c2 := range tripleCuts {
+					if !emit(shape{cuts: []int{c0}, place: []int{0}, copies: []Copy{{0, c1, 1}, {0, c2, 2}}}) {
+						return false
+					}
+				}
+			}
+		}
+	}
+	return true
 }
 
 func maxOf(xs []int) int {
@@ -418,11 +624,15 @@ func maxOf(xs []int) int {
 func TestCheck(t *testing.T) {
 	r := vlib.New(t, "C04")
 	defer r.Finish()
-	r.Rule("replicas R=1..3 x per-replica chunk cut of a 6-sample series (all 16 compositions into <=3 chunks + 4 overlapping covers; R=3: q 5 cuts, t 12 cuts) " +
+	r.Rule("replicas R=1..3 x per-replica chunk cut of a 6-sample series (R=2: all 16 compositions into <=3 chunks + 4 overlapping covers; R=1: those + the 16 compositions into 4..6 chunks " +
+		"+ 2 covers with nested chunks followed by a newer chunk = 38; R=3: q 5 cuts, t 12 cuts) " +
 		"x all surjective placements of replicas on 1..R stores x chunks spread over stores or not x logical series {1, 2 differing before, 2 differing after the replica labels} " +
 		"x replica labels {replica},{r,replica} x stores with/without WithoutReplicaLabels support x series-per-frame / chunk-per-frame " +
 		"x {dedup on identical replicas, dedup on distinct replicas, dedup off} x step {10s; 1s for identical replicas, R<=2} [t, R<=2: x lazy/eager x batch 1/3]; " +
-		"non-trivial = distinct dedup-on cases with >= 2 replicas whose chunk cuts differ or overlap")
+		"PLUS the same replica served by two stores: every ordered pair of the 38 cuts (store 0, store 1) x {alone; next to a second replica with cut q 1 / t 5 on store q {0, own} / t {0,1,own}} " +
+		"x logical series x replica labels x support x framing x the three dedup modes (alone: x step 1s [t: x lazy x batch]) [t: the same replica on three stores, all triples of 14 cuts]; " +
+		"non-trivial = distinct dedup-on cases with >= 2 replicas whose chunk cuts differ or overlap, and distinct cases (any dedup mode) where one replica is served by several stores with different cuts " +
+		"(extra counters: cases_same_replica_on_several_stores, cases_dedup_off_nested_chunk_then_newer_chunk)")
 	r.Assume("stores are fakes that behave like a conforming StoreAPI (series sorted by labels, chunks by min time; with WithoutReplicaLabels support they strip the labels and re-sort); " +
 		"raw XOR float chunks; query range = exactly the sample range; penalty dedup; partial response disabled")
 	vlib.ForEach(r, gen(r), func(c Case) { evalCase(r, c) })
@@ -439,12 +649,35 @@ func evalCase(r *vlib.R, c Case) {
 	if c.Dedup && R >= 2 {
 		diff := false
 		for k := range c.Cuts {
-			if c.Cuts[k] != c.Cuts[0] || c.Cuts[k] >= 16 {
+			if c.Cuts[k] != c.Cuts[0] || selfOverlap(c.Cuts[k]) {
 				diff = true
 			}
 		}
 		if diff {
 			r.Nontrivial(fmt.Sprintf("%+v", c))
+		}
+	}
+	// copies: multiStore[k] = replica k is served by several stores with different cuts
+	multiStore := make([]bool, R)
+	nested := make([]bool, R)
+	for _, cp := range c.Copies {
+		if cp.Cut != c.Cuts[cp.Replica] {
+			multiStore[cp.Replica] = true
+		}
+	}
+	if len(c.Copies) > 0 {
+		r.Add("cases_same_replica_on_several_stores", 1)
+		anyMulti, anyNested := false, false
+		for k := range multiStore {
+			nested[k] = c.nestedThenNewer(k)
+			anyMulti = anyMulti || multiStore[k]
+			anyNested = anyNested || (multiStore[k] && nested[k])
+		}
+		if anyMulti {
+			r.Nontrivial(fmt.Sprintf("%+v", c))
+		}
+		if anyNested && !c.Dedup {
+			r.Add("cases_dedup_off_nested_chunk_then_newer_chunk", 1)
 		}
 	}
 	byLset := map[string][]gotSeries{}
@@ -477,14 +710,20 @@ func evalCase(r *vlib.R, c Case) {
 					sig = "dedup-on-identical-replicas-samples-lost"
 				}
 				overl := false
-				for _, ci := range c.Cuts {
-					if ci >= 16 {
-						overl = true
+				for k := range c.Cuts {
+					for _, ci := range c.allCuts(k) {
+						if selfOverlap(ci) {
+							overl = true
+						}
 					}
 				}
 				if overl {
-					// narrow class: some replica's own chunks overlap each other (cuts 16..19)
+					// narrow class: the chunks that one store serves for one replica overlap each other
 					sig += "-replica-with-self-overlapping-chunks"
+				}
+				if !overl && len(c.Copies) > 0 {
+					// narrow class: every store serves a clean partition, but one replica is served by several stores
+					sig += "-same-replica-on-several-stores"
 				}
 				if !overl && c.Step < 5000 {
 					// narrow class: scrape interval below the 5000 ms initial penalty of the penalty algorithm
@@ -509,7 +748,16 @@ func evalCase(r *vlib.R, c Case) {
 			case len(gs) > 1:
 				r.Violation("dedup-off-replica-series-returned-more-than-once", fmt.Sprintf("%d series %s: %s", len(gs), want, describe()), c)
 			case !eqS(gs[0].ss, c.samples(l, k)):
-				r.Violation("dedup-off-replica-samples-changed", fmt.Sprintf("series %s: got %v want %v", want, gs[0].ss, c.samples(l, k)), c)
+				sig := "dedup-off-replica-samples-changed"
+				if multiStore[k] {
+					// narrow classes: the replica is served by several stores with different chunk cuts [and the merged chunk
+					// list has a chunk nested in earlier ones followed by a chunk with newer samples]
+					sig += "-same-replica-on-several-stores"
+					if nested[k] {
+						sig += "-nested-chunk-then-newer-chunk"
+					}
+				}
+				r.Violation(sig, fmt.Sprintf("series %s: got %v want %v", want, gs[0].ss, c.samples(l, k)), c)
 			}
 			delete(byLset, want)
 		}
